@@ -188,9 +188,13 @@ package absnfs
 //@ ensures [always-fails] result0 == reply && replyIsBytes(reply) && replyStatus(reply) != 0 && mutlog == old(mutlog)
 
 // ---- error mapping: a failure never maps to NFS3_OK
+//@ specfun errStatus(e error) mathint
 //@ func mapError
 //@ prop C08 C14
 //@ ensures [ok-iff-nil] result == 0 <==> isnil(err)
+// (assumed, not proved: mapError is a function of the error it is given - it reads no other state - so two
+// evaluations on the same error agree; lets a caller's test of mapError(e) be named in a clause as errStatus(e))
+//@ free ensures result == errStatus(err)
 
 // ---- operation layer: reads never modify the backend
 //@ func AbsfsNFS.ReadWithContext
